@@ -158,6 +158,10 @@ def source_text(s: Src) -> str:
 
 
 # ---- independent scanner of the written text -------------------------------------------------------
+class MalformedOutput(Exception):
+    pass
+
+
 def scan_output(text: str):
     """returns (line comments [(depth, text)], block comments [(depth, text)], include names) in text order"""
     lcs, bcs, incs = [], [], []
@@ -167,7 +171,10 @@ def scan_output(text: str):
     while i < n:
         c = text[i]
         if text.startswith("/*", i):
-            e = text.index("*/", i + 2) + 2
+            e = text.find("*/", i + 2)
+            if e < 0:
+                raise MalformedOutput(f"the written text holds a block comment that is never closed: {text[i:i + 60]!r}")
+            e += 2
             bcs.append((depth, text[i:e]))
             i = e
             continue
@@ -241,7 +248,10 @@ def oracle(case: dict):
             return ("raises", f"read/write without comments raised {type(e).__name__}: {e}")
     finally:
         shutil.rmtree(tmp, ignore_errors=True)
-    lcs, bcs, incs = scan_output(out)
+    try:
+        lcs, bcs, incs = scan_output(out)
+    except MalformedOutput as e:
+        return ("output-malformed", str(e))
     if case.get("chain"):
         foreign = ("// comment in chainA", "// comment in chainB", "// nested comment in chainB")
         lcs = [(dp, t) for dp, t in lcs if t not in foreign]
@@ -287,7 +297,10 @@ def oracle(case: dict):
         return False
     if has_comment_key(gen.plain(dict(d_off))):
         return ("off-keys", "comments=False returned a comment entry")
-    lo, bo, _ = scan_output(out_off)
+    try:
+        lo, bo, _ = scan_output(out_off)
+    except MalformedOutput as e:
+        return ("output-malformed", "comments off: " + str(e))
     if lo or len(bo) != 1 or not out_off.startswith(DEFAULT_HEADER_START):
         return ("off-written", f"comments=False: written comments {lo!r} {bo!r}")
     a = native.canon_ids(native.strip_placeholders(gen.plain(dict(d_on))))
